@@ -9,6 +9,7 @@ import ast
 import sympy as sp
 
 from ..algebra import Untranslatable, is_zero, to_sympy
+from ..core.terms import cmp_, not_, pc, phi_  # noqa: F401
 from ..core.terms import c, evaluate, fn_name, kw, n, pretty, subterms
 from .common import is_call, method, short
 
@@ -122,7 +123,7 @@ def check(ctx):
     rk = repo.func("liesel.distributions.mvn_degen._rank")
     rr = evaluate(repo, rk).ret()
     ok_r = (rr == ("call", ("g", "jax.numpy.sum"),
-                   (("cmp", ">", n("eigenvalues"), n("tol")),), (("axis", c(-1)),)))
+                   (cmp_(">", n("eigenvalues"), n("tol")),), (("axis", c(-1)),)))
     ctx.ob("C18.R1", rk, "_rank counts the eigenvalues above the tolerance", ok_r,
            detail=short(rr or ()))
     pd = repo.func("liesel.distributions.mvn_degen._log_pdet")
